@@ -24,6 +24,7 @@ package main
 //	      m = the same, and the operator has marked the transaction that created all the outputs
 //	      (Ledger.UpdateBlockChainData: "blocked" transaction)
 //
+// A refused transaction is submitted a second time to the same entry (its duplicate filter has seen the id by then).
 // Every line is self-contained: whatever the submission left in the pool is rolled back afterwards.
 // The oracle judges the CONTENT of the line (who signed validly, which accounts they control, whose outputs are
 // spent, whose rule is rewritten); cls is a label for the statistics only.
@@ -591,6 +592,9 @@ func judgeSx(line string, l sxLine, ok bool, verr error, admitted bool) {
 		// Chain.SubmitTx (kernel/engines/xuperos/chain.go) consults only the error of VerifyTx before it calls DoTx
 		out.Violate(xvlib.Violation{Key: "refused-without-error", What: "VerifyTx refuses the transaction (false) but returns no error; Chain.SubmitTx checks only the error and admits it", Ops: []string{line}, Impl: impl})
 	}
+	if sxCanonical(l) {
+		out.Count("sx-honestly-built:" + map[bool]string{true: "accept", false: "reject"}[ok])
+	}
 	if !ok && sxCanonical(l) {
 		out.Violate(xvlib.Violation{Key: "signed-tx-rejected", What: "a correctly signed and authorised transaction is rejected by VerifyTx", Ops: []string{line}, Impl: impl})
 	}
@@ -623,6 +627,11 @@ func execSx(line string, oracle bool) string {
 	ok, verr := im.n.S.VerifyTx(tx)
 	serr := ch.SubmitTx(&xctx.BaseCtx{XLog: im.n.Ctx.XLog}, tx)
 	pending, _ := im.n.S.HasTx(tx.Txid)
+	if serr != nil && !pending {
+		// a refused transaction is sent again to the same entry (which remembers the ids it has seen): still no
+		serr = ch.SubmitTx(&xctx.BaseCtx{XLog: im.n.Ctx.XLog}, tx)
+		pending, _ = im.n.S.HasTx(tx.Txid)
+	}
 	admitted := serr == nil || pending
 	// leave the chain as it was
 	clean := true
